@@ -77,6 +77,18 @@ EBU_FRAME = re.compile(r"github\.com/jilio/ebu[\w/.\-]*\.[\w\[\](){}*.,\- ]+\(|/
 HARNESS_FRAME = re.compile(r"verif/harness")
 
 
+def crash_stack(logtxt, head):
+    """the text from the panic / fatal-error line to the end of the first goroutine's stack (a stack
+    overflow prints 100 top frames, an elision marker and the bottom frames: far more than a page)"""
+    t = logtxt[logtxt.find(head):][:600000]
+    m = re.search(r"\n\ngoroutine \d+ ", t)
+    if m:
+        m2 = re.search(r"\n\ngoroutine \d+ ", t[m.end():])
+        if m2:
+            return t[:m.end() + m2.start()]
+    return t[:200000]
+
+
 def has_ebu_frame(text, repo):
     for line in text.splitlines():
         if "github.com/jilio/ebu" in line and "verif/harness" not in line:
@@ -296,7 +308,7 @@ def main():
                 else:
                     merged["inconclusive"]["watchdog"] = merged["inconclusive"].get("watchdog", 0) + 1
                     infra.append(f"child {pname}/{sh} timed out (rc={rc}) without a confirmed deadlock; log {log}")
-            elif head and has_ebu_frame(logtxt[logtxt.find(head):][:20000], repo):
+            elif head and has_ebu_frame(crash_stack(logtxt, head), repo):
                 wpath = os.path.join(EVID, "replays", f"{pid}-{seed}-{pname}-{sh}-crash.log")
                 os.makedirs(os.path.dirname(wpath), exist_ok=True)
                 open(wpath, "w").write(logtxt[-200000:])
